@@ -148,7 +148,7 @@ theorem collect_eq_rest {α} (it : AIt α) : collect it = it.rest := by
     induction xs with
     | nil => simp
     | cons x xs ih => intro acc; simp only [List.foldl_cons, ih, List.reverse_cons, List.append_assoc, List.singleton_append]
-  simp [this]
+  rw [this]; simp
 
 /-- **async_for_visits_items**: `async for x in auto_aiter(v)` runs its body on exactly the items a sync `for` sees, in
     order, for a sync iterable and for the async iterable of the same items; a value that is not iterable is a TypeError
@@ -354,5 +354,21 @@ theorem sync_only_consumers_known :
     (filterConsumers.filter (!·.2)).map (·.1) =
       ["batch", "count", "last", "length", "min", "max", "random", "reverse", "sort", "truncate", "urlencode", "urlize"] ∧
     (testConsumers.filter (!·.2)).map (·.1) = ["sequence", "iterable", "in"] := by decide
+
+/-! ### full-strength statements that do NOT hold (known findings; negations proved in Findings/F17.lean) -/
+
+/-- what "a producer's result can be handed to any consumer in async mode" needs: every filter/test that takes an iterable
+    has an async variant.  False (DESIGN F17). -/
+def ConsumersHaveVariants : Prop := ∀ c ∈ filterConsumers ++ testConsumers, c.2 = true
+
+/-- what "async mode consumes a one-shot iterable like sync mode" needs: an async variant is lazy (an async generator)
+    exactly when its sync function is a generator.  False for `unique` and `slice` (known findings C09:consumption:*). -/
+def LazinessPreserved : Prop := ∀ p ∈ filterPairs ++ testPairs, p.syncIsGen = p.asyncGen
+
+/-- … and `unique` and `slice` (sync: generators that read their input when first iterated; async: the input is drained
+    when the filter is called) are the only pairs that break it -/
+theorem laziness_preserved_except_known :
+    ∀ p ∈ filterPairs ++ testPairs, p.filters ≠ ["unique"] → p.filters ≠ ["slice"] → p.syncIsGen = p.asyncGen := by
+  decide
 
 end JinjaV.C09
